@@ -78,6 +78,21 @@ func init() {
 		}
 	}
 	alphabets["V"] = v
+	// "G" (gossip rounds): v3 invoke of account 1 | deploy-account | v3 invoke from an address nothing is deployed at (refused) | L1 handler
+	var g []txSpec
+	for i := 0; i < 32; i++ {
+		switch i % 4 {
+		case 0:
+			g = append(g, txSpec{"invoke", 1, uint64(i)})
+		case 1:
+			g = append(g, txSpec{"deployacc", 0, 0})
+		case 2:
+			g = append(g, txSpec{"invoke", 0, 0})
+		default:
+			g = append(g, txSpec{"l1handler", 0, 0})
+		}
+	}
+	alphabets["G"] = g
 }
 
 func accountAddr(a int) *felt.Felt {
